@@ -356,8 +356,8 @@ def run_robust(ctx, fzf, sid, sc):
                 seen = False
                 try:
                     t.tmux("send-keys", "-t", "s", "-H", "1b", "5b", "32", "30", "31", "7e")
-                    for attempt in range(4):
-                        time.sleep(0.3)
+                    for attempt in range(7):
+                        time.sleep(0.3 if attempt < 4 else 2.0)      # the last attempts wait long: the machine may be busy
                         try:
                             before = t.get(limit=1, timeout=10)
                         except Exception:
@@ -366,7 +366,7 @@ def run_robust(ctx, fzf, sid, sc):
                             break           # the socket has stopped answering: probe_alive below decides
                         t.keys("F9")
                         t1 = time.time()
-                        while time.time() - t1 < 1.5 and not seen and not life.gone():
+                        while time.time() - t1 < (1.5 if attempt < 4 else 8.0) and not seen and not life.gone():
                             g = None
                             try:
                                 g = t.get(limit=1, timeout=10)
